@@ -5,6 +5,7 @@ import RimeModel.C17.MergeFacts
 import RimeModel.C17.RestoreLemmas
 import RimeModel.C17.Instances
 import RimeModel.C17.Sorted
+import RimeModel.C17.World
 /-!
 C17 — user dictionary sync merges without loss and snapshots round-trip.  Property theorems only.
 
@@ -420,5 +421,69 @@ example :
     (mergeDb natDee [65] 0 (mergeDb natDee [65] 0 dest temp) temp).fetch kAB =
       (mergeDb natDee [65] 0 dest temp).fetch kAB := by
   decide
+
+/-! ### conversion of an old-format dictionary, synchronization of all dictionaries (op level, `RimeModel/C17/World.lean`) -/
+
+/-- `UpgradeUserDict` without an old-format file changes nothing and succeeds. -/
+theorem upgrade_without_old_file (w : World) (i n : Bytes) (h : w.legacyFile i n = none) :
+    w.upgrade O i n = (w, true) := by
+  unfold World.upgrade
+  rw [h]
+
+/-- An old-format file that is not a user dictionary (no `/db_type userdb` line) is left where it is, nothing is merged,
+and the call reports failure: no entry is lost by a refused conversion. -/
+theorem upgrade_refused_keeps_everything (w : World) (i n c : Bytes) (h : w.legacyFile i n = some c)
+    (hu : isUserDb (uniformRestore [] c) = false) :
+    w.upgrade O i n = (w, false) := by
+  unfold World.upgrade
+  rw [h]
+  simp [hu]
+
+/-- A conversion that goes ahead is the merge (`UserDictManager::Restore`, to which `merge_keeps_keys`, `merge_abs_max`,
+`merge_tick_max` apply) of the uniform snapshot of the old file's content, after the old file and the scratch dictionary
+have been removed; the call succeeds iff that merge does. -/
+theorem upgrade_is_restore_of_snapshot (w : World) (i n c : Bytes) (h : w.legacyFile i n = some c)
+    (hu : isUserDb (uniformRestore [] c) = true) :
+    let w1 := ({ w with legacy := w.legacy.filter fun e => e.1 != (i, n) } : World).drop i sDotTemp
+    w.upgrade O i n =
+      match managerRestore O (w1.env i) 0 (uniformBackup (uniformRestore [] c)) (fun m => w1.db i m) with
+      | none => (w1, false)
+      | some (m, db) => (w1.setDb i m db, true) := by
+  intro w1
+  unfold World.upgrade
+  rw [h]
+  simp only [hu, Bool.not_true, Bool.false_eq_true, if_false]
+  rfl
+
+/-- `SynchronizeAll` over no dictionaries changes nothing and succeeds; over `n :: rest` it is `Synchronize n` followed by
+the rest, and it succeeds iff every one did (a failure does not stop the others). -/
+theorem synchronizeAll_cons (w : World) (i n : Bytes) (rest order : List Bytes) :
+    w.synchronizeAll O i [] order = (w, true) ∧
+    (w.synchronizeAll O i (n :: rest) order).2 =
+      ((w.synchronize O i n [] order).2 &&
+       (({ (w.synchronize O i n [] order).1 with files := w.files } : World).synchronizeAll O i rest order).2) := by
+  constructor
+  · rfl
+  · unfold World.synchronizeAll
+    simp only [List.foldl_cons, Bool.true_and]
+    generalize (w.synchronize O i n [] order) = r
+    have aux : ∀ (l : List Bytes) (acc : World) (b : Bool),
+        (l.foldl (fun (acc : World × Bool) (n : Bytes) =>
+          let keep := acc.1.files
+          let r := acc.1.synchronize O i n [] order
+          (({ r.1 with files := keep } : World), acc.2 && r.2)) (acc, b)).2 =
+        (b && (l.foldl (fun (acc : World × Bool) (n : Bytes) =>
+          let keep := acc.1.files
+          let r := acc.1.synchronize O i n [] order
+          (({ r.1 with files := keep } : World), acc.2 && r.2)) (acc, true)).2) := by
+      intro l
+      induction l with
+      | nil => intro acc b; simp
+      | cons x xs ih =>
+        intro acc b
+        simp only [List.foldl_cons, Bool.true_and]
+        rw [ih, ih (b := (acc.synchronize O i x [] order).2)]
+        simp [Bool.and_assoc]
+    exact aux rest _ r.2
 
 end C17
